@@ -90,6 +90,11 @@ var helperNeeds = map[string][]string{"E": {"Y"}, "W": {"X"}, "V": {"X", "Y"}}
 // cand is one grammar of the enumeration, without its option variant.
 type cand struct {
 	Shape string
+	// Early: 1 = run right after the seeds in both tiers, 2 = right after the seeds in the
+	// thorough tier only (in the quick tier like any other candidate).
+	Early int
+	// MaxLen is the input length bound when it differs from L.
+	MaxLen int
 	// Rules is the text of the S rule (and, for some shapes, further rules). Placeholders:
 	// @ROOT@ = name of the root node type (Root, or File when fileNode is set);
 	// @FILEARROW@ = " -> File" when fileNode is set, "" otherwise.
@@ -98,7 +103,7 @@ type cand struct {
 
 func enumerate() []cand {
 	var out []cand
-	add := func(shape, rules string) { out = append(out, cand{shape, rules}) }
+	add := func(shape, rules string) { out = append(out, cand{Shape: shape, Rules: rules}) }
 	nodeAtoms := []string{"X", "Y", inlineB, "Z", "E", "tc", "XE", "W", "V"}
 	allQ := []string{"", "?", "+", "*", "sep+", "sep*"}
 
@@ -179,6 +184,68 @@ func enumerate() []cand {
 		for _, p := range p7 {
 			for _, q := range p7 {
 				add("S8", "S -> @ROOT@ :\n    "+fmt.Sprintf(wrap, p.String()+" "+q.String())+" ;\n")
+			}
+		}
+	}
+	// SA "shared field carrier": a helper nonterminal N without an arrow assigns the list field
+	// foo once or twice and is used by two node types T1 and T2, one of which adds a further
+	// part with the same field name (before or after N). The node types of the three leaves
+	// are drawn from {Abc, Mid, Zed}, so that the merged selector has to be sorted in every
+	// possible way and duplicates have to be dropped: the selector of the type that does NOT
+	// add a part must stay what N alone contributes.
+	names := []string{"Abc", "Mid", "Zed"}
+	leaves := func(t1, t2, t3 string) string {
+		return "\nL1 -> " + t1 + " :\n    ta ;\n\nL2 -> " + t2 + " :\n    tb ;\n\nL3 -> " + t3 + " :\n    te ;\n"
+	}
+	for role := 0; role < 2; role++ {
+		for _, t1 := range names {
+			for _, t2 := range names {
+				for _, t3 := range names {
+					early := 2
+					// the quick tier runs six of the grammars whose two leaves of N share a node type
+					// while the third sorts differently (four of the first role, two of the second)
+					if t1 == t2 && t3 != t1 && (t3 == "Abc" || (role == 0 && (t1 == "Zed" || t3 == "Zed" && t1 == "Abc"))) {
+						early = 1
+					}
+					t1r, t2r := "tx N", "ty N foo+=L3"
+					if role == 1 {
+						t1r, t2r = "tx foo+=L3 N", "ty N"
+					}
+					out = append(out, cand{Shape: "SA", Early: early, Rules: "S@FILEARROW@ :\n    T1\n  | T2\n;\n\nT1 -> T1 :\n    " + t1r + " ;\n\nT2 -> T2 :\n    " + t2r + " ;\n\nN :\n    foo+=L1 foo+=L2 ;\n" + leaves(t1, t2, t3)})
+				}
+			}
+		}
+	}
+	for _, t1 := range names {
+		for _, t3 := range names {
+			out = append(out, cand{Shape: "SA", Early: 2, Rules: "S@FILEARROW@ :\n    T1\n  | T2\n;\n\nT1 -> T1 :\n    tx N ;\n\nT2 -> T2 :\n    ty N foo+=L3 ;\n\nN :\n    foo+=L1 ;\n" + strings.Replace(leaves(t1, t1, t3), "\nL2 -> "+t1+" :\n    tb ;\n", "", 1)})
+		}
+	}
+	// SB "recursion through k intermediate nonterminals without arrows": the head H
+	// contributes a node per recursion level (named field or not), the chain C1..Ck leads
+	// back to H, optionally followed by a node. Inputs recurse 0, 1 and 2 times ("e", "ae",
+	// "aae", with the tail "aebb"/"aaebb": length 5), so the field of the head must be a list.
+	for _, tail := range []string{"", " Y"} {
+		for k := 1; k <= 3; k++ {
+			for _, head := range []string{"x=X", "X"} {
+				var sb strings.Builder
+				sb.WriteString("S -> @ROOT@ :\n    H ;\n\nH :\n    " + head + " C1\n  | te\n;\n")
+				for i := 1; i <= k; i++ {
+					if i < k {
+						fmt.Fprintf(&sb, "\nC%d :\n    C%d ;\n", i, i+1)
+					} else {
+						fmt.Fprintf(&sb, "\nC%d :\n    H%s ;\n", i, tail)
+					}
+				}
+				early := 1
+				if (tail != "" && !(k == 2 && head == "x=X")) || (k == 1 && head == "X") {
+					early = 2
+				}
+				maxLen := 0
+				if tail != "" {
+					maxLen = 5
+				}
+				out = append(out, cand{Shape: "SB", Early: early, MaxLen: maxLen, Rules: sb.String()})
 			}
 		}
 	}
@@ -282,9 +349,9 @@ func tmText(cd cand, v variant, name string) string {
 	if v.Comment {
 		sb.WriteString("cm: /#/ (space)\n")
 	}
-	for _, t := range []string{"ta", "tb", "tc", "td"} {
-		if used[t] {
-			fmt.Fprintf(&sb, "%s: /%c/\n", t, t[1])
+	for ch := byte('a'); ch <= 'z'; ch++ {
+		if t := "t" + string(ch); used[t] {
+			fmt.Fprintf(&sb, "%s: /%c/\n", t, ch)
 		}
 	}
 	sb.WriteString("\n:: parser\n\n%input S;\n\n")
@@ -309,7 +376,7 @@ func tmText(cd cand, v variant, name string) string {
 	return sb.String()
 }
 
-var lexRuleRe = regexp.MustCompile(`(?m)^(ws|cm|t[a-d]): /(\[ \]\+|.)/`)
+var lexRuleRe = regexp.MustCompile(`(?m)^(ws|cm|t[a-z]): /(\[ \]\+|.)/`)
 
 // alphabet lists the input characters of a grammar text (terminals first).
 func alphabet(tm string) []byte {
@@ -1204,6 +1271,15 @@ func run(c *core.Ctx) {
 			order = append(order, ci)
 		}
 	}
+	early := 0
+	for ci, cd := range cands {
+		if (cd.Early == 1 || (cd.Early == 2 && !c.Quick())) && !inOrder[ci] {
+			inOrder[ci] = true
+			order = append(order, ci)
+			early++
+		}
+	}
+	c.Set("early_family_candidates", early)
 	passes := (len(sel) + 79) / 80
 	for p := 0; p < passes; p++ {
 		for k := p; k < len(sel); k += passes {
@@ -1240,10 +1316,10 @@ func run(c *core.Ctx) {
 		}
 		pending = pending[:0]
 	}
-	// The first batch holds the seeds and a few more (its duration calibrates the following batch sizes:
+	// The first batch holds the seeds and the early families SA/SB (its duration calibrates the following batch sizes:
 	// the machine is shared, a build takes between 0.3 s and 6 s per grammar).
 	{
-		cd := cand{"flags", flagsRules}
+		cd := cand{Shape: "flags", Rules: flagsRules}
 		v := variants[0]
 		name := "g99999"
 		tm := tmText(cd, v, name)
@@ -1261,7 +1337,7 @@ func run(c *core.Ctx) {
 			pending = append(pending, it)
 		}
 	}
-	limit := len(seeds) + 6
+	limit := len(seeds) + early
 	if !c.Quick() {
 		limit = batchSize
 	}
@@ -1295,7 +1371,11 @@ func run(c *core.Ctx) {
 			c.Outcome("rejected: no types", 1)
 			continue
 		}
-		it := &item{Idx: ci, Name: name, Cand: cd, Variant: v, TM: tm, Inputs: allStrings(alphabet(tm), L)}
+		maxLen := L
+		if cd.MaxLen > 0 {
+			maxLen = cd.MaxLen
+		}
+		it := &item{Idx: ci, Name: name, Cand: cd, Variant: v, TM: tm, Inputs: allStrings(alphabet(tm), maxLen)}
 		pending = append(pending, it)
 		if len(pending) >= limit {
 			flush()
